@@ -93,7 +93,7 @@ PROPS = {
   'quick': {'cases': 6400, 'max_size': 300, 'exhaustive': True, 'wall_s': 900},
   'thorough': {'cases': 128000, 'max_size': 400, 'exhaustive': True, 'wall_s': 3000},
   'sim': ['simsock', 'fakecurl', 'simclock'],
-  'essential_classes': ['all-accepted', 'refusal-then-more-leaves', 'has-metadata-leaves', 'max-level-set', 'proofs-checked', 'block-signer:signatures-checked', 'block-signer:reset-compared', 'block-signer:masking+metadata'],
+  'essential_classes': ['all-accepted', 'refusal-then-more-leaves', 'has-metadata-leaves', 'max-level-set', 'proofs-checked', 'block-signer:signatures-checked', 'block-signer:reset-compared', 'block-signer:masking+metadata', 'block-signer:high-levels', 'block-signer:leaf-refused', 'block-signer:refusal-inertness-compared'],
   'assumptions': ['reference forest merge reflects the documented canonical merge'],
  }, 'C01': {
   'technique': 'model-based property testing (rapidcheck): reference-built signatures with named semantic mutations against an independent evaluation of the consistency conditions',
@@ -180,7 +180,7 @@ PROPS = {
   'quick': {'cases': 8000, 'max_size': 120, 'wall_s': 600},
   'thorough': {'cases': 160000, 'max_size': 150, 'wall_s': 2400},
   'sim': ['simsock', 'fakecurl', 'simclock'],
-  'essential_classes': ['scheme:ksi', 'scheme:ksi+http', 'scheme:ksi+https', 'scheme:ksi+tcp', 'scheme:file', 'scheme:http', 'scheme:x-unknown', 'embedded-credentials', 'mixed-case-scheme', 'host:ipv6', 'port:boundary', 'async-refusal',
+  'essential_classes': ['path:percent-encoded', 'scheme:ksi', 'scheme:ksi+http', 'scheme:ksi+https', 'scheme:ksi+tcp', 'scheme:file', 'scheme:http', 'scheme:x-unknown', 'embedded-credentials', 'mixed-case-scheme', 'host:ipv6', 'port:boundary', 'async-refusal',
                         'service:blocking-aggregator', 'service:blocking-extender', 'service:async-signing', 'service:async-extending', 'explicit:U-', 'explicit:-K', 'explicit:UK', 'explicit:--'],
   'assumptions': ['ports are generated as canonical decimals; percent-encoding in user-info is not generated'],
  }, 'C13': {
@@ -273,7 +273,7 @@ PROPS = {
           '(small signed file, byte position, mask). Non-trivial = every structure/trust and byte-change case; lookup cases with at least one record. distinct = distinct descriptor.',
   'quick': {'cases': 24000, 'max_size': 300, 'exhaustive': True, 'wall_s': 900},
   'thorough': {'cases': 400000, 'max_size': 400, 'exhaustive': True, 'wall_s': 3400},
-  'essential_classes': ['mode:structure-and-trust', 'mode:lookup', 'mode:byte-change', 'expect:trusted', 'expect:not-trusted', 'expect:parse-refused', 'signed-range:inexact', 'chain:not-anchored',
+  'essential_classes': ['mode:structure-and-trust', 'verified-under-another-context', 'mode:lookup', 'mode:byte-change', 'expect:trusted', 'expect:not-trusted', 'expect:parse-refused', 'signed-range:inexact', 'chain:not-anchored',
                         'constraints:none', 'constraints:mismatch', 'constraint:proper-prefix', 'constraint:empty', 'constraint:extended', 'flip:signed-range', 'flip:signature-value', 'flip:still-parses',
                         'lookup:ties', 'nearest:hit', 'nearest:miss', 'by-time:hit', 'cert-by-id:hit', 'cert-by-id:miss', 'rule-violated:element-after-signature', 'rule-violated:section-out-of-order'],
   'assumptions': ['certificate validity periods are not varied', 'only the generated inputs are covered'],
